@@ -122,6 +122,8 @@ def run(ctx):
                 if okloads and t not in okloads:
                     interesting = True
                 okloads.add(t)
+                # look at the new contents right away, from every kind of fingerprint
+                steps += r.sample(probes[:6], r.randint(1, 3))
             elif k < 0.55 and bads:
                 steps.append("L:" + hx(r.choice(bads)))
                 if okloads:
@@ -144,7 +146,8 @@ def run(ctx):
             ctx.fail("during a load a reader of the shared database saw a state that is neither the old nor the new contents, or a failed load changed the database: "
                      + a[a.index("during=BAD"):][:300], op=line, impl=a, model=b, extra={"stream": "reader-oracle"})
     # how dense the reader is: observation points during one load of the 21-line database A (measured in-process)
-    from .. import ops_hist, impl
+    from .. import impl
+    from .. import ops_hist
     db = impl.P()["Database"]()
     ops_hist._STATS.update(points=0, loads=0)
     ops_hist.do_load(db, hx(DB_A), True)
